@@ -280,18 +280,16 @@ theorem next_at_ifend (c : List Nat) (q : Nat) (hn : c.length + 16 < 4294967296)
   rw [s6, s7, s8, s9]
 
 
-/-- `<else ` + `/>` at `q` (as printed: `<else />`) -/
-theorem next_at_else (c : List Nat) (q : Nat) (hn : c.length + 16 < 4294967296)
+/-- `<else` at `q`, the unit at `q + 6` (if any) not `>` (as in `<else />` and `<elseif …`) -/
+theorem next_at_else' (c : List Nat) (q : Nat) (hn : c.length + 16 < 4294967296)
     (h0 : c[q]? = some 60) (h1 : c[q + 1]? = some 101) (h2 : c[q + 2]? = some 108)
-    (h3 : c[q + 3]? = some 115) (h4 : c[q + 4]? = some 101) (h6 : c[q + 6]? = some 47) :
+    (h3 : c[q + 3]? = some 115) (h4 : c[q + 4]? = some 101) (h6 : ∀ x, c[q + 6]? = some x → x ≠ 62) :
     next c q = .ok (q + 5, 11) := by
   have hlt : q < c.length := (List.getElem?_eq_some_iff.mp h0).1
   have hlt2 : q + 2 < c.length := (List.getElem?_eq_some_iff.mp h2).1
   have hlt4 : q + 4 < c.length := (List.getElem?_eq_some_iff.mp h4).1
-  have hlt6 : q + 6 < c.length := (List.getElem?_eq_some_iff.mp h6).1
   have e2 : c[q + 2] = 108 := by have := List.getElem?_eq_getElem hlt2; rw [h2] at this; exact (Option.some.inj this).symm
   have e4 : c[q + 4] = 101 := by have := List.getElem?_eq_getElem hlt4; rw [h4] at this; exact (Option.some.inj this).symm
-  have e6 : c[q + 6] = 47 := by have := List.getElem?_eq_getElem hlt6; rw [h6] at this; exact (Option.some.inj this).symm
   unfold next
   have : c.length + 1 - q = (c.length - q) + 1 := by omega
   rw [this]
@@ -312,7 +310,8 @@ theorem next_at_else (c : List Nat) (q : Nat) (hn : c.length + 16 < 4294967296)
     have hwl : W1.wordLengths.getD 7 0 = 5 := by decide
     have hwd : W1.words.getD 7 [] = [47, 108, 111, 111, 112, 62] := by decide
     simp only [hwl, hwd, h32, show (q + 1 + 5) % 4294967296 = q + 6 by omega]
-    intro _ he; rw [e6] at he; simp at he
+    intro hw he
+    exact absurd he (h6 _ (List.getElem?_eq_getElem hw))
   have s8 : tryWords c (q + 1) (8 :: [9, 10]) = tryWords c (q + 1) [9, 10] := by
     apply tryWords_skip
     have hwl : W1.wordLengths.getD 8 0 = 1 := by decide
@@ -336,5 +335,12 @@ theorem next_at_else (c : List Nat) (q : Nat) (hn : c.length + 16 < 4294967296)
     simp [matchMiddle, rd_some c (q + 1) 101 h1, rd_some c _ 108 h2', rd_some c _ 115 h3', bind, Except.bind,
       show q + 1 < q + 4 by omega, show q + 1 + 1 < q + 4 by omega, show q + 1 + 1 + 1 < q + 4 by omega]
   rw [s6, s7, s8, s9, s10]
+
+
+theorem next_at_else (c : List Nat) (q : Nat) (hn : c.length + 16 < 4294967296)
+    (h0 : c[q]? = some 60) (h1 : c[q + 1]? = some 101) (h2 : c[q + 2]? = some 108)
+    (h3 : c[q + 3]? = some 115) (h4 : c[q + 4]? = some 101) (h6 : c[q + 6]? = some 47) :
+    next c q = .ok (q + 5, 11) :=
+  next_at_else' c q hn h0 h1 h2 h3 h4 (by intro x hx; rw [h6] at hx; cases hx; decide)
 
 end Qentem.Tmpl
